@@ -203,14 +203,75 @@ def run_case(case, st=None):
     return None
 
 
+# ------------------------------------------------------------------ histories: several serialisations of one graph with rebinding and growth in between
+def gen_seq(rng):
+    steps = []
+    nss = ["http://example.org/ns#", "http://example.org/", "http://example.org/a/", "http://example.org/other#", "urn:e:"]
+    for _ in range(rng.choice([3, 4, 6, 8])):
+        k = rng.random()
+        if k < 0.35:
+            steps.append(["bind", rng.choice(["ex", "e", "", "ns1", "a"]), rng.choice(nss), rng.random() < 0.7, rng.random() < 0.4])
+        elif k < 0.7:
+            xml = True
+            ts, _ = gen_graph(rng, size=rng.choice([1, 2, 3]), xml_safe=True, lists=False)
+            ts = [t for t in ts if xml_pred_ok(t[1]) and not (isinstance(t[2], Literal) and not xml_text_ok(str(t[2])))]
+            steps.append(["add", [enc_t(t) for t in ts]])
+        else:
+            steps.append(["ser", rng.choice(list(FORMATS))])
+    steps.append(["ser", rng.choice(["xml", "turtle", "pretty-xml", "n3", "longturtle"])])
+    return dict(kind="seq", steps=steps, bn=rng.choice(["none", "core", "rdflib"]))
+
+
+def run_seq(case, st=None):
+    st = st if st is not None else {}
+    g = Graph(bind_namespaces=case["bn"])
+    triples = []
+    nser = 0
+    for i, step in enumerate(case["steps"]):
+        if step[0] == "bind":
+            g.bind(step[1], step[2], override=step[3], replace=step[4])
+        elif step[0] == "add":
+            for t in step[1]:
+                t = dec_t(t); g.add(t); triples.append(t)
+        else:
+            sub = dict(kind="rt", fmt=step[1], triples=[enc_t(t) for t in g], opts=dict(base=None, bn=case["bn"], binds=[]), classes=[])
+            carve = [] if case.get("no_carve") else triggers(list(g), step[1], sub["opts"])
+            if any(not c.startswith("C03-turtle-") for c in carve):
+                continue
+            fmt = step[1]; pfmt = FORMATS[fmt]
+            try:
+                text = g.serialize(format=fmt)
+            except ValueError:
+                if fmt in ("xml", "pretty-xml"): continue
+                raise
+            except Exception as ex:
+                return ("serialize-raises", "step %d: serialize(format=%s) raised %s: %s" % (i, fmt, type(ex).__name__, str(ex)[:200]))
+            try:
+                g2 = Graph().parse(data=text, format=pfmt)
+            except Exception as ex:
+                return ("parse-raises", "step %d: output of serialize(format=%s) after %s is rejected: %s: %s\n%s" % (i, fmt, json.dumps(case["steps"][:i])[:300], type(ex).__name__, str(ex)[:200], text[:400]))
+            key = hext_key if fmt == "hext" else (weak_key(carve) if carve else lkey)
+            r = iso(list(g), list(g2), lit_key=key)
+            nser += 1
+            st["seq-roundtrip:" + fmt] = st.get("seq-roundtrip:" + fmt, 0) + 1
+            if r is False:
+                return ("seq-roundtrip:" + fmt, "step %d: after the history %s, %s output does not parse back to the graph\n%s" % (i, json.dumps(case["steps"][:i])[:400], fmt, text[:500]))
+    st["_nontrivial"] = 1 if nser >= 2 else 0
+    return None
+
+
+def lane_seq(ctx):
+    run_cases(ctx, gen_seq, run_seq, "steps", sample=lambda c: dict(steps=c["steps"][:4]))
+
+
 def lane_rt(ctx):
     run_cases(ctx, gen_case, run_case, "triples", sample=lambda c: dict(fmt=c["fmt"], opts=c["opts"], triples=c["triples"][:3], n=len(c["triples"])))
 
 
-LANES = {"rt": dict(fn=lane_rt, quick=60000, thorough=1200000)}
-REQUIRED_COUNTERS = {"any": ["cmp:iso:" + f for f in FORMATS]}
+LANES = {"rt": dict(fn=lane_rt, quick=50000, thorough=1000000), "seq": dict(fn=lane_seq, quick=8000, thorough=160000)}
+REQUIRED_COUNTERS = {"any": ["cmp:iso:" + f for f in FORMATS] + ["cmp:seq-roundtrip:xml", "cmp:seq-roundtrip:turtle"]}
 
 
 def replay(w):
-    r = run_case(w)
+    r = run_seq(w) if w.get("kind") == "seq" else run_case(w)
     return None if not r else "%s: %s" % r
